@@ -1,7 +1,7 @@
 (* C10 — concurrent requests are race-free, serialisable, and see immutable snapshots. *)
 From Coq Require Import Permutation.
 From VP Require Import Base Nonce NonceProofs Store StoreProofs Pool PoolProofs BalanceProofs Conc ConcProofs
-                       SerialProofs SerialFull SoloPool Snapshot SnapshotProofs Locks LocksProofs.
+                       SerialProofs SerialFull SoloPool Mixed Snapshot SnapshotProofs Locks LocksProofs.
 From VPgen Require Import Facts.
 
 (* (a) every store operation is atomic: the in-memory driver takes its mutex before touching any
@@ -98,6 +98,18 @@ Theorem c10_keepalives_serialisable_pool : forall cfg dep connected st0 us sch,
     forall j, b_credit (node_bal (pool_run cfg dep connected st0 us order) j) = b_credit (node_bal (c_st c') j).
 Proof. exact keepalives_serialisable_pool. Qed.
 Print Assumptions c10_keepalives_serialisable_pool.
+(* ... but a keep-alive is NOT atomic with respect to a withdrawal: it credits each active peer in a
+   store action of its own, and when two of the credited hosts are paid into one wallet a
+   withdrawal of that wallet between the two credits settles the first only.  Ledger and payout
+   are then the result of neither one-at-a-time order (nothing is lost: paid + left is the same in
+   all three runs).  The full statement of C10 is false of the faithful model, and of the code: the
+   same schedule is forced on the real services on every run (known finding D28). *)
+Theorem c10_keepalive_withdraw_refuted :
+  mx_complete mx_keepalive_first = true /\ mx_complete mx_withdraw_first = true /\ mx_complete mx_between = true /\
+  mx_outcome mx_keepalive_first = (0, 2000, -2000) /\
+  mx_outcome mx_withdraw_first = (2000, 0, -2000) /\
+  mx_outcome mx_between = (1000, 1000, -2000).
+Proof. exact keepalive_withdraw_not_serialisable. Qed.
 
 (* ... and the per-node lock itself: the keep-alives of one node go through a lock looked up (or
    created) in a map under the pool mutex and never removed from it (structural facts regenerated
